@@ -348,3 +348,91 @@ def r_emptyfill(idx, rep, rule="R-EMPTYFILL", modules=None, floor=5):
                       "cells %s of `%s` are never written but the array is used as a whole (e.g. `%s`): they hold arbitrary memory"
                       % (missing[:6], name, u(pm.get(whole[0]))[:60] if pm.get(whole[0]) is not None else name),
                       "%d cells covered by %d stores%s" % (len(cells), len(stores), " (loop-indexed)" if unknown else ""))
+
+
+def _cap_text(e):
+    return u(e).replace(" ", "")
+
+
+def r_boundedstore(idx, rep, rule="R-BOUNDEDSTORE", modules=None, floor=3):
+    """every store at a running counter into a LOCALLY allocated fixed-size buffer is bounded: either a capacity check dominates it, or
+    the loops around it execute it at most CAP times (one loop over range(N) with CAP == N; the pair loop i < j over range(N) with
+    CAP == N*(N-1)//2).  A buffer 'tightened' below the loop count with the assertion dropped overflows: IndexError interpreted,
+    silent out-of-bounds write compiled."""
+    rep.rule(rule, "stores at a running counter into a locally allocated np.empty/np.zeros buffer are bounded by a dominating capacity check or "
+                   "by the iteration count of the enclosing range loops (N, or N*(N-1)//2 for the i<j pair loop) equal to the allocated capacity",
+             floor=floor)
+    for f in idx.all_functions():
+        if f.module.is_test or (modules is not None and f.module.name not in modules):
+            continue
+        incs = _counters(f.node)
+        if not incs:
+            continue
+        pm = parent_map(f.node)
+        allocs = {}
+        for st in iter_stmts(f.node.body):
+            if isinstance(st, ast.Assign) and len(st.targets) == 1 and isinstance(st.targets[0], ast.Name) and isinstance(st.value, ast.Call) \
+                    and call_name(st.value) in ("np.empty", "np.zeros", "np.ones") and st.value.args:
+                shp = st.value.args[0]
+                first = shp.elts[0] if isinstance(shp, (ast.Tuple, ast.List)) and shp.elts else shp
+                allocs[st.targets[0].id] = first
+        checks = _capacity_checks(f.node, incs)
+        seen = set()
+        for st in iter_stmts(f.node.body):
+            if not (isinstance(st, ast.Assign) and isinstance(st.targets[0], ast.Subscript) and isinstance(st.targets[0].value, ast.Name)):
+                continue
+            buf = st.targets[0].value.id
+            counter = _first_index(st.targets[0])
+            if buf not in allocs or counter not in incs or (buf, counter) in seen:
+                continue
+            # a running counter: initialised with a literal and only ever incremented (a simplex length that projections reset is not one)
+            other = [a for a in ast.walk(f.node) if isinstance(a, ast.Assign) and any(isinstance(t, ast.Name) and t.id == counter or
+                     (isinstance(t, ast.Tuple) and any(isinstance(e, ast.Name) and e.id == counter for e in t.elts)) for t in a.targets)
+                     and not (len(a.targets) == 1 and isinstance(a.targets[0], ast.Name) and isinstance(const(a.value), int))]
+            if other:
+                continue
+            seen.add((buf, counter))
+            cap = allocs[buf]
+            key = "%s|stores %s[%s] bounded by its capacity" % (f.key, buf, counter)
+            where = "%s:%d" % (f.module.relpath, st.lineno)
+            caps = _capacity_exprs(idx, f, buf)
+            if any(c == counter and capx.replace(" ", "") in caps and _dominates(pm, ck, st) for ck, c, capx in checks):
+                rep.ok(rule, key, where, "capacity check dominates the store")
+                continue
+            # loop-count argument
+            loops = []
+            p = pm.get(st)
+            while p is not None and p is not f.node:
+                if isinstance(p, ast.While):
+                    loops = None
+                    break
+                if isinstance(p, ast.For):
+                    loops.append(p)
+                p = pm.get(p)
+            bound = None
+            if loops is not None:
+                loops = list(reversed(loops))
+
+                def rng(lp):
+                    it = lp.iter
+                    if isinstance(it, ast.Call) and call_name(it) == "range":
+                        return it.args
+                    return None
+                if len(loops) == 1:
+                    a = rng(loops[0])
+                    if a is not None and len(a) == 1:
+                        bound = _cap_text(a[0])
+                    elif a is None and isinstance(loops[0].iter, ast.Name):
+                        bound = "len(%s)" % loops[0].iter.id
+                elif len(loops) == 2:
+                    a, b = rng(loops[0]), rng(loops[1])
+                    if a is not None and b is not None and len(a) == 1 and len(b) == 2 and isinstance(loops[0].target, ast.Name) \
+                            and _cap_text(b[0]) == "%s+1" % loops[0].target.id and _cap_text(b[1]) == _cap_text(a[0]):
+                        n = _cap_text(a[0])
+                        bound = "%s*(%s-1)//2" % (n, n)
+            capt = _cap_text(cap)
+            ok = bound is not None and (bound == capt or (const(cap) is not None and bound == str(const(cap))))
+            rep.check(ok, rule, key, where,
+                      "`%s` is written at the running counter `%s`, the buffer holds %s rows, no capacity check dominates the store and the enclosing loops can execute it "
+                      "%s times: more kept items than rows is an IndexError when interpreted and a silent out-of-bounds write (heap corruption / truncated result) when compiled"
+                      % (u(st.targets[0]), counter, capt, bound or "an unbounded number of"), "loop count %s == capacity" % bound)
